@@ -36,7 +36,8 @@ pub fn ref_lines(text: &str) -> Vec<&str> {
 }
 
 fn is_blank_or_comment(line: &str) -> bool {
-    let t = line.trim_matches(|c| c == ' ' || c == '\t' || c == '\r');
+    // blank = nothing but white space, in the sense of the Unicode White_Space property
+    let t = line.trim();
     t.is_empty() || t.starts_with('#')
 }
 
@@ -235,6 +236,54 @@ pub fn worker(w: &mut Worker) {
             }
         }
     }
+    // white space other than the blank and TAB at the ends of a line (vertical tab, form feed, next
+    // line, no-break space, the U+2000 block, line / paragraph separator, ideographic space ...): a
+    // line of nothing else is blank, a comment behind it is a comment, a malformed line stays
+    // malformed with the same kind, and a well-formed line parses to what it parses to without it
+    for ws in UNICODE_WHITE_SPACE.iter().copied().filter(|c| *c != '\n' && *c != '\r') {
+        let wss = ws.to_string();
+        for blank in [wss.clone(), format!("{}{}", ws, ws), format!(" {} ", ws), format!("{}# c \"x", ws), format!(" {}#", ws), format!("{}\t# c", ws)] {
+            for pos in 0..3usize {
+                if !w.take() {
+                    continue;
+                }
+                let mut ls = vec!["echo before", "x = set 1", "echo after"];
+                ls.insert(pos, &blank);
+                run_text(w, &ls.join("\n"), &[], "unicode-blank");
+            }
+        }
+        for (kind, spellings) in MALFORMED {
+            for bad in spellings {
+                for (lead, trail) in [(wss.as_str(), ""), ("", wss.as_str()), (wss.as_str(), wss.as_str())] {
+                    if !w.take() {
+                        continue;
+                    }
+                    let line = format!("{}{}{}", lead, bad, trail);
+                    let text = format!("echo before\n{}\necho after", line);
+                    run_text(w, &text, &[(2, kind)], "unicode-blank-planted");
+                }
+            }
+        }
+        for good in WELLFORMED.iter().copied().filter(|g| !g.is_empty()) {
+            for (lead, trail) in [(wss.as_str(), ""), ("", wss.as_str()), (wss.as_str(), wss.as_str())] {
+                if !w.take() {
+                    continue;
+                }
+                let line = format!("{}{}{}", lead, good, trail);
+                let cj = json!({"kind": "unicode-blank-same", "text": line, "without": good});
+                w.begin(|| cj.clone());
+                match (parse(&line), parse(good)) {
+                    (Ok(a), Ok(b)) if a == b => w.pass(true, hash64(&("unicode-blank-same", a.is_ok()))),
+                    (Ok(a), Ok(b)) => w.fail(
+                        "unicode-blank:differs",
+                        &format!("line {:?} parses to {:?}, without the white space at its ends to {:?}", line, a.map(|v| v.into_iter().map(|x| pi_json(&x.2)).collect::<Vec<_>>()), b.map(|v| v.into_iter().map(|x| pi_json(&x.2)).collect::<Vec<_>>())),
+                        cj,
+                    ),
+                    (a, b) => w.fail("panic", &format!("{:?} {:?}", a.err(), b.err()), cj),
+                }
+            }
+        }
+    }
     // two malformed lines: the reported error must be one of them
     for (k1, s1) in MALFORMED {
         for (k2, s2) in MALFORMED {
@@ -405,7 +454,7 @@ pub fn crash_sig(_case: &Value, kind: &str) -> String {
     kind.to_string()
 }
 
-pub const RULE: &str = "enumeration (no duplicates within a phase): planted malformed line (6 kinds x 4-5 spellings) at every position among every choice of well-formed lines (pool of 10), LF and CRLF; pairs of malformed lines; the escape table (a backslash, and a backslash-dollar, followed by each of 18 characters in 6 argument positions (four on command lines, two on pre-processor lines), in the middle of an argument / at the end of the line / before trailing white space / before a comment / before the closing quote, alone and behind an earlier well-formed escape (\\${v}, \\n, \\\\) of the same argument, at every line position: only the documented escapes parse, all others are rejected with ControlWithoutValidValue); every sequence of tokens from a pool of 14; lines of 10^4 and 10^5 repeated characters of each class; a line with 20000 / 200000 (thorough 2000000) arguments, well-formed and ending in an unterminated quote; texts of 20000 (thorough 10^6) lines, well-formed and with a malformed line in the middle / at the end; every text up to the length bound over {a SP \" \\ # = : ! $ { LF CR} (+TAB, e-acute). Oracle: no panic; Ok => one instruction per line with line numbers 1..n, no source tag, blank/comment lines Empty, each line parses alone to the same instruction; Err(kind,k) => 1<=k<=n and line k alone is rejected with the same kind; planted error => that kind and line. Non-trivial: the text contains one of \" \\ # = : !; states = distinct (verdict, error kind, error line, line count) classes, transitions = parse_text calls on whole texts";
+pub const RULE: &str = "enumeration (no duplicates within a phase): planted malformed line (6 kinds x 4-5 spellings) at every position among every choice of well-formed lines (pool of 10), LF and CRLF; pairs of malformed lines; the escape table (a backslash, and a backslash-dollar, followed by each of 18 characters in 6 argument positions (four on command lines, two on pre-processor lines), in the middle of an argument / at the end of the line / before trailing white space / before a comment / before the closing quote, alone and behind an earlier well-formed escape (\\${v}, \\n, \\\\) of the same argument, at every line position: only the documented escapes parse, all others are rejected with ControlWithoutValidValue); every sequence of tokens from a pool of 14; lines of 10^4 and 10^5 repeated characters of each class; a line with 20000 / 200000 (thorough 2000000) arguments, well-formed and ending in an unterminated quote; texts of 20000 (thorough 10^6) lines, well-formed and with a malformed line in the middle / at the end; every text up to the length bound over {a SP \" \\ # = : ! $ { LF CR} (+TAB, e-acute). Oracle: no panic; Ok => one instruction per line with line numbers 1..n, no source tag, blank/comment lines Empty, each line parses alone to the same instruction; Err(kind,k) => 1<=k<=n and line k alone is rejected with the same kind; planted error => that kind and line. Non-trivial: the text contains one of \" \\ # = : !; states = distinct (verdict, error kind, error line, line count) classes, transitions = parse_text calls on whole texts. White space at line ends: each of the 23 Unicode white-space characters other than LF and CR in front of, behind and around every blank, comment, malformed (same kind, same line) and well-formed (same instruction as without it) line";
 pub const ASSUMPTIONS: &[&str] = &["no !include_files directive in the texts (C14 covers includes)"];
 pub const EXHAUSTIVE: bool = true;
 pub const WALL_CAP_S: (u64, u64) = (50, 1500);
